@@ -1,11 +1,11 @@
 #!/bin/bash
 # seed_eval.sh <Cxx> <A|B> [check ids...]  — confirm a seeded change and run the checks against it (development aid)
-# Reads /tmp/seed/<Cxx>.out/<X>/{patch.diff,zz_seed_demo_test.go,meta.json}; writes /tmp/seedeval/<Cxx>-<X>.summary
+# Reads /tmp/seed/<Cxx>.out/<X>/{patch.diff,zz_seed_demo_test.go,meta.json}; writes ${SEEDEVAL_DIR:-/tmp/seedeval}/<Cxx>-<X>.summary
 set -u
 P=$1; X=$2; shift 2
 CHECKS=${@:-$P}
 SRC=/tmp/seed/$P.out/$X
-OUT=/tmp/seedeval/$P-$X
+OUT=${SEEDEVAL_DIR:-/tmp/seedeval}/$P-$X
 export GOFLAGS=-mod=mod GOPROXY=off GOSUMDB=off GOTOOLCHAIN=local
 NS() { unshare -n sh -c 'ip link set lo up; ip link set lo multicast on 2>/dev/null; ip route add 224.0.0.0/4 dev lo 2>/dev/null; exec "$@"' sh "$@"; }
 WT=$(mktemp -d /tmp/seedwt.XXXXXX)
